@@ -418,6 +418,48 @@ Definition run_packer_clocked (c : case) : bytes :=
                    | Some e => item_literal cfg (fun body => dec_of_Z (pieces_len Z (fun n => n) body)) e
                    end) outs).
 
+(* ---- kind 7: two chunk makers alive at the same time, calls interleaved (they must not share any state) ----
+   sargs = [tagA; tagB]; zargs = targetA, maxRecordsA, maxBytesA, targetB, maxRecordsB, maxBytesB, (which, op)*
+   which = 0|1 selects the maker, op as in kind 1; a final FlushBuffer on A, then on B.
+   output "two:" item;...  (items as in kind 1, frozen = 0, the rank of an id is taken among its own maker's ids) *)
+Fixpoint ops_of_maker (which : Z) (i : nat) (zs : list Z) : list (op Z) :=
+  match zs with
+  | w :: z :: zs' =>
+      if w =? which
+      then (if z <? 0 then OFlush else OWrite (model_now i) z) :: ops_of_maker which (S i) zs'
+      else ops_of_maker which (S i) zs'
+  | _ => []
+  end.
+
+Definition item_bytes {R} (cfg : config) (payload : list (piece R) -> bytes) (ids : list bytes)
+           (o : option (echunk R)) : bytes :=
+  match o with
+  | None => [45]%N
+  | Some e => item_of cfg 0 payload ids e
+  end.
+
+(* merge the two result lists back into call order *)
+Fixpoint merge_outs (zs : list Z) (a b : list bytes) : list bytes :=
+  match zs with
+  | w :: _ :: zs' =>
+      if w =? 0
+      then match a with x :: a' => x :: merge_outs zs' a' b | [] => [] end
+      else match b with x :: b' => x :: merge_outs zs' a b' | [] => [] end
+  | _ => a ++ b
+  end.
+
+Definition run_two_makers (c : case) : bytes :=
+  let cfgA := target_config (zarg c 0) (zarg c 1) (zarg c 2) (sarg c 0) in
+  let cfgB := target_config (zarg c 3) (zarg c 4) (zarg c 5) (sarg c 1) in
+  let zs := skipn 6 (c_zargs c) in
+  let plen := fun body => dec_of_Z (pieces_len Z (fun n => n) body) in
+  let (_, outsA) := run_trace Z (fun n => n) cfgA pstate_init (ops_of_maker 0 0 zs ++ [OFlush]) in
+  let (_, outsB) := run_trace Z (fun n => n) cfgB pstate_init (ops_of_maker 1 0 zs ++ [OFlush]) in
+  let idsA := map (@e_id Z) (emitted_of Z outsA) in
+  let idsB := map (@e_id Z) (emitted_of Z outsB) in
+  [116; 119; 111; 58]%N ++
+  join semicolon (merge_outs zs (map (item_bytes cfgA plen idsA) outsA) (map (item_bytes cfgB plen idsB) outsB)).
+
 Definition run_case_C11 (c : case) : bytes :=
   match c_kind c with
   | 0%N => run_packer_literal c
@@ -427,5 +469,6 @@ Definition run_case_C11 (c : case) : bytes :=
   | 4%N => run_format c
   | 5%N => run_idgen_clock c
   | 6%N => run_packer_clocked c
+  | 7%N => run_two_makers c
   | _ => bad_case_output
   end.
